@@ -200,7 +200,10 @@ def constructed_stats(mspec, st_spec):
         continue
       rs = np.random.RandomState((st_spec['seed'] * 65537 + zlib.crc32(t['name'].encode())) % (2**32))
       style = STAT_STYLES[rs.randint(len(STAT_STYLES))] if st_spec.get('wild') else 'range'
+      if st_spec.get('mag', 1.0) < 1e-2:
+        style = 'range'   # every tensor with its own small range
       a, b = abs(rs.randn()) + 0.01, abs(rs.randn()) + 0.01
+      a, b = a * st_spec.get('mag', 1.0), b * st_spec.get('mag', 1.0)
       if style == 'range':
         mn, mx = -a, b
       elif style == 'constant':
